@@ -20,6 +20,7 @@ For every `pub fn` of `impl StorageEngine` in src/storage/engine.rs (plus the pr
 write command against the real server and a table entry that disagrees with the observed EXEC outcome is a
 correspondence failure (DESIGN 2.3).  The same `rows()` are sent by the check to the Lean driver `drv_watch`.
 """
+import os
 import re
 
 MUT_PATTERNS = [
@@ -361,11 +362,84 @@ def key_is_bytes(src, strip_comments, fn_body):
     return not notes, notes
 
 
+GENERIC_METHODS = {"insert", "remove", "clear", "len", "is_empty", "new", "default", "clone", "get", "push", "pop", "delete", "range"}
+SHARED_FILES = ("storage/stream.rs", "storage/consumer_groups.rs", "storage/skiplist.rs")
+
+
+def all_fns(text):
+    """(name, header, body) of every fn in the text, at any nesting level"""
+    out = []
+    for m in re.finditer(r"\bfn\s+([a-z_0-9]+)\s*(?:<[^({]*>)?\s*\(", text):
+        i, d = m.end(), 1
+        while i < len(text) and d:
+            d += (text[i] == "(") - (text[i] == ")")
+            i += 1
+        j, semi = text.find("{", i), text.find(";", i)
+        if j < 0 or (0 <= semi < j):
+            continue
+        k, d = j + 1, 1
+        while k < len(text) and d:
+            d += (text[k] == "{") - (text[k] == "}")
+            k += 1
+        out.append((m.group(1), text[m.start():j], text[j + 1:k - 1]))
+    return out
+
+
+def bypass_mutators(src, strip_comments, repo_src):
+    """Mutation of stored values OUTSIDE the storage engine.  Streams, consumer groups and skip lists keep their state
+    behind Arc / Mutex / RwLock / atomics, so a value obtained through StorageEngine::get (a clone that shares that
+    state) can be changed by `&self` methods without any engine mutator - and so without mark_modified.
+      1. shared mutators: the `&self` methods of storage/{stream,consumer_groups,skiplist}.rs whose body takes a mutable
+         lock guard (`let mut x = self.….lock()/write()`), writes through `.write().unwrap().…`, or uses an atomic
+         store / fetch_*, plus those that call one of them (closure); names that are also std collection methods
+         (insert, remove, clear, delete, …) are left out - they would match every map in the code base
+      2. every fn of every other source file (engine.rs itself and test modules excluded) that calls a shared mutator on
+         something that is not the engine is listed as (file, fn, method, touches) with touches = the fn also calls
+         `storage.touch(` (StorageEngine::touch = mark_modified under the shard lock)
+    -> sorted list, or a string when the shared files are not found"""
+    texts = {}
+    for f in SHARED_FILES:
+        try:
+            texts[f] = strip_comments(src(f))
+        except OSError:
+            return "%s not found" % f
+    sign = re.compile(r"let\s+mut\s+\w+\s*=\s*self\s*\.[\w\.]*\s*\.\s*(?:lock|write)\s*\(\s*\)|\.write\s*\(\s*\)\s*\.\s*unwrap\s*\(\s*\)\s*\.\s*\w+|fetch_add|fetch_sub|\.store\s*\(")
+    fns = [(n, h, b) for t in texts.values() for n, h, b in all_fns(t) if "&self" in h]
+    muts = set(n for n, h, b in fns if sign.search(b))
+    for _ in range(5):
+        names = sorted(muts - GENERIC_METHODS)
+        if not names:
+            break
+        rx = re.compile(r"\.\s*(%s)\s*\(" % "|".join(names))
+        for n, h, b in fns:
+            if n not in muts and rx.search(b):
+                muts.add(n)
+    names = sorted(muts - GENERIC_METHODS)
+    if not names:
+        return "no shared mutator recognised in " + ", ".join(SHARED_FILES)
+    rx = re.compile(r"(\w+)\s*(?:\(\s*\))?\s*\.\s*(%s)\s*\(" % "|".join(names))
+    out = []
+    for root, _, files in os.walk(repo_src):
+        for fn in files:
+            if not fn.endswith(".rs"):
+                continue
+            rel = os.path.relpath(os.path.join(root, fn), repo_src)
+            if rel == "storage/engine.rs" or rel in SHARED_FILES:
+                continue
+            t = strip_comments(open(os.path.join(root, fn), encoding="utf-8", errors="replace").read())
+            t = re.sub(r"#\[cfg\(test\)\]\s*mod\s+\w+\s*\{.*\Z", "", t, flags=re.S)
+            for n, h, b in all_fns(t):
+                touches = bool(re.search(r"\bstorage\s*\.\s*touch\s*\(", b))
+                for meth in sorted(set(m.group(2) for m in rx.finditer(b) if m.group(1) not in ("storage", "engine"))):
+                    out.append((rel, n, meth, touches))
+    return sorted(set(out))
+
+
 def lean_str_list(xs):
     return "[" + ", ".join('"%s"' % x for x in xs) + "]"
 
 
-def generate(src, strip_comments, fn_body, header):
+def generate(src, strip_comments, fn_body, header, repo_src=None):
     t = rows(src, strip_comments)
     lines = [header, "import FerrousSpec.Model.Watch", "namespace Ferrous.Gen", ""]
     lines.append("/-- One row per `pub fn` of `impl StorageEngine` (src/storage/engine.rs) and the sweeper loop:")
@@ -395,6 +469,17 @@ def generate(src, strip_comments, fn_body, header):
     lines.append("/-- get_shard_index: (SHARDS_PER_DATABASE, FNV offset basis, FNV prime) of `hash ^= byte; hash *= prime; hash % shards`;")
     lines.append("    (0, 0, 0) when the function no longer has that shape. -/")
     lines.append("def shardConsts : Nat × Nat × Nat := (%d, %d, %d)" % (sc if sc else (0, 0, 0)))
+    bm = bypass_mutators(src, strip_comments, repo_src) if repo_src else "source directory not given"
+    lines.append("")
+    lines.append("/-- Functions outside the storage engine that call a `&self` mutator of the shared state of a stream / consumer")
+    lines.append("    group / skip list on a value they did not get from an engine mutator (file, fn, method, touches):")
+    lines.append("    `touches` = the function also calls StorageEngine::touch, i.e. mark_modified.  See translator/watch_facts.py. -/")
+    if isinstance(bm, str):
+        lines.append('def bypassMutators : List (String × String × String × Bool) := extraction_failed "%s"' % bm.replace('"', "'"))
+    else:
+        lines.append("def bypassMutators : List (String × String × String × Bool) := [")
+        lines.append(",\n".join('  ("%s", "%s", "%s", %s)' % (f, n, m_, "true" if tch else "false") for f, n, m_, tch in bm))
+        lines.append("]")
     kb, kb_notes = key_is_bytes(src, strip_comments, fn_body)
     lines.append("")
     lines.append("/-- WATCH / UNWATCH / EXEC hand the key to register_watch / unregister_watch / was_modified_since as the bytes of")
